@@ -1,14 +1,598 @@
-//! (under construction)
+//! C11 — both in-memory sinks against an ideal MSB-first bit string, over
+//! operation histories; and a required-methods-only user sink receiving every
+//! component of the corpus.
+//!
+//! Part A: one operation at every start offset 0..63 (complete enumeration of a finite grid);
+//! Part B: seeded operation sequences, compared after every operation;
+//! Part C: corpus components through `ReqSink` / `FullSink` / `MemSink<u64>` vs `ByteSink`.
+
+use crate::c12::{components, Comp};
+use crate::corpus;
+use crate::pan;
+use crate::rng::{mix, Rng};
+use crate::sinks::{BitModel, Core, FullSink, ReqSink};
 use crate::{Summary, Violation};
+use flacenc::bitsink::{BitSink, ByteSink, MemSink};
+use serde::{Deserialize, Serialize};
+use serde_json::json;
+use std::convert::Infallible;
 
-pub fn run(_ctx: &crate::RunCtx) -> (Summary, Vec<Violation>) {
-    (Summary::new("under construction"), vec![])
+#[derive(Serialize, Deserialize, Clone, Debug, PartialEq)]
+#[serde(tag = "op")]
+pub enum Op {
+    /// `write::<uT>(v)`, `t` = width in bits (8, 16, 32, 64)
+    Write { t: u8, v: u64 },
+    Msbs { t: u8, v: u64, n: usize },
+    Lsbs { t: u8, v: u64, n: usize },
+    /// `write_twoc::<iT>(v, w)`
+    Twoc { t: u8, v: i64, w: usize },
+    Zeros { n: usize },
+    Align,
+    Bytes { data: Vec<u8> },
 }
 
-pub fn exec(_case: &serde_json::Value) -> Result<Option<Violation>, String> {
-    Err("not implemented".into())
+fn mask(t: u8) -> u64 {
+    if t >= 64 {
+        u64::MAX
+    } else {
+        (1u64 << t) - 1
+    }
 }
 
-pub fn minimise(case: &serde_json::Value, _class: &str, _site: &str) -> serde_json::Value {
-    case.clone()
+pub fn apply_model(m: &mut BitModel, op: &Op) {
+    match op {
+        Op::Write { t, v } => m.push_msbs(*v & mask(*t), *t as usize, *t as usize),
+        Op::Msbs { t, v, n } => m.push_msbs(*v & mask(*t), *t as usize, *n),
+        Op::Lsbs { v, n, .. } => m.push_lsbs(*v, *n),
+        Op::Twoc { v, w, .. } => m.push_lsbs(*v as u64, *w),
+        Op::Zeros { n } => m.push_zeros(*n),
+        Op::Align => {
+            m.align();
+        }
+        Op::Bytes { data } => {
+            m.align();
+            for b in data {
+                m.push_msbs(u64::from(*b), 8, 8);
+            }
+        }
+    }
+}
+
+pub fn apply_sink<S: BitSink>(s: &mut S, op: &Op) -> Result<(), S::Error> {
+    match op {
+        Op::Write { t, v } => match t {
+            8 => s.write(*v as u8),
+            16 => s.write(*v as u16),
+            32 => s.write(*v as u32),
+            _ => s.write(*v),
+        },
+        Op::Msbs { t, v, n } => match t {
+            8 => s.write_msbs(*v as u8, *n),
+            16 => s.write_msbs(*v as u16, *n),
+            32 => s.write_msbs(*v as u32, *n),
+            _ => s.write_msbs(*v, *n),
+        },
+        Op::Lsbs { t, v, n } => match t {
+            8 => s.write_lsbs(*v as u8, *n),
+            16 => s.write_lsbs(*v as u16, *n),
+            32 => s.write_lsbs(*v as u32, *n),
+            _ => s.write_lsbs(*v, *n),
+        },
+        Op::Twoc { t, v, w } => match t {
+            8 => s.write_twoc(*v as i8, *w),
+            16 => s.write_twoc(*v as i16, *w),
+            32 => s.write_twoc(*v as i32, *w),
+            _ => s.write_twoc(*v, *w),
+        },
+        Op::Zeros { n } => s.write_zeros(*n),
+        Op::Align => s.align_to_byte().map(|_| ()),
+        Op::Bytes { data } => s.write_bytes_aligned(data).map(|_| ()),
+    }
+}
+
+/// What the harness reads from an in-memory sink (public API only).
+pub trait Mem: BitSink<Error = Infallible> {
+    const ELEM_BITS: usize;
+    const NAME: &'static str;
+    fn fresh() -> Self;
+    fn bitlen(&self) -> usize;
+    /// raw storage as big-endian bytes
+    fn raw(&self) -> Vec<u8>;
+    fn export(&self, nbytes: usize) -> Vec<u8>;
+    fn bitstring(&self) -> String;
+}
+
+impl Mem for MemSink<u8> {
+    const ELEM_BITS: usize = 8;
+    const NAME: &'static str = "MemSink<u8>";
+    fn fresh() -> Self {
+        Self::new()
+    }
+    fn bitlen(&self) -> usize {
+        self.len()
+    }
+    fn raw(&self) -> Vec<u8> {
+        self.as_slice().to_vec()
+    }
+    fn export(&self, nbytes: usize) -> Vec<u8> {
+        let mut v = vec![0xEEu8; nbytes];
+        self.write_to_byte_slice(&mut v);
+        v
+    }
+    fn bitstring(&self) -> String {
+        self.to_bitstring()
+    }
+}
+
+impl Mem for MemSink<u64> {
+    const ELEM_BITS: usize = 64;
+    const NAME: &'static str = "MemSink<u64>";
+    fn fresh() -> Self {
+        Self::new()
+    }
+    fn bitlen(&self) -> usize {
+        self.len()
+    }
+    fn raw(&self) -> Vec<u8> {
+        self.as_slice().iter().flat_map(|x| x.to_be_bytes()).collect()
+    }
+    fn export(&self, nbytes: usize) -> Vec<u8> {
+        let mut v = vec![0xEEu8; nbytes];
+        self.write_to_byte_slice(&mut v);
+        v
+    }
+    fn bitstring(&self) -> String {
+        self.to_bitstring()
+    }
+}
+
+fn expected_bitstring(m: &BitModel, elem: usize) -> String {
+    let mut s = String::new();
+    let n = m.len();
+    let total = (n + elem - 1) / elem * elem;
+    for i in 0..total {
+        if i > 0 && i % elem == 0 {
+            s.push('_');
+        }
+        if i < n {
+            s.push(if m.bits[i] { '1' } else { '0' });
+        } else {
+            s.push('*');
+        }
+    }
+    s
+}
+
+/// Compares a sink with the model; returns (class, detail) on the first difference.
+fn compare<S: Mem>(s: &S, m: &BitModel) -> Option<(&'static str, String)> {
+    if s.bitlen() != m.len() {
+        return Some(("length_mismatch", format!("sink.len() = {} but {} bits were written", s.bitlen(), m.len())));
+    }
+    let raw = s.raw();
+    let want = m.to_bytes();
+    let nbytes = want.len();
+    if raw.len() < nbytes {
+        return Some(("storage_too_short", format!("storage holds {} bytes, {} needed", raw.len(), nbytes)));
+    }
+    if raw[..nbytes] != want[..] {
+        let at = raw.iter().zip(want.iter()).position(|(a, b)| a != b);
+        // distinguish wrong written bits from a dirty tail inside the last byte
+        let n = m.len();
+        let written_ok = (0..n).all(|i| (raw[i / 8] & (0x80 >> (i % 8)) != 0) == m.bits[i]);
+        return Some((
+            if written_ok { "dirty_tail" } else { "bits_mismatch" },
+            format!("storage differs from the ideal bit string at byte {at:?} (len {n} bits): got {:02x?}, want {:02x?}", &raw[..nbytes.min(24)], &want[..nbytes.min(24)]),
+        ));
+    }
+    if raw[nbytes..].iter().any(|b| *b != 0) {
+        return Some(("dirty_tail", format!("storage bits after the written length are not zero: {:02x?}", &raw[nbytes..])));
+    }
+    let elems = (m.len() + S::ELEM_BITS - 1) / S::ELEM_BITS;
+    if raw.len() != elems * S::ELEM_BITS / 8 {
+        return Some(("storage_length", format!("storage has {} bytes for {} bits (expected {})", raw.len(), m.len(), elems * S::ELEM_BITS / 8)));
+    }
+    let exp = s.export(nbytes);
+    if exp != want {
+        return Some(("export_mismatch", format!("write_to_byte_slice gives {:02x?}, want {:02x?}", &exp[..nbytes.min(24)], &want[..nbytes.min(24)])));
+    }
+    let bs = s.bitstring();
+    let eb = expected_bitstring(m, S::ELEM_BITS);
+    if bs != eb {
+        return Some(("bitstring_mismatch", format!("to_bitstring gives {bs:?}, want {eb:?}")));
+    }
+    None
+}
+
+#[derive(Serialize, Deserialize, Clone, Debug)]
+pub struct SeqCase {
+    pub part: String,
+    /// "u8" or "u64"
+    pub sink: String,
+    pub ops: Vec<Op>,
+}
+
+/// Runs an op sequence on sink type S, comparing with the model after every op.
+fn run_seq<S: Mem>(ops: &[Op], seam_ops: &mut u64) -> Option<(String, String, String, String)> {
+    let r = pan::catch(|| {
+        let mut s = S::fresh();
+        let mut m = BitModel::default();
+        for (i, op) in ops.iter().enumerate() {
+            let _ = apply_sink(&mut s, op);
+            apply_model(&mut m, op);
+            if let Some((class, detail)) = compare(&s, &m) {
+                return Some((class, format!("after op {i} ({op:?}) on {}: {detail}", S::NAME), i));
+            }
+        }
+        None
+    });
+    *seam_ops += ops.len() as u64;
+    match r {
+        Err(c) => Some(("panic".into(), c.site, c.message, format!("{} panicked during the sequence", S::NAME))),
+        Ok(Some((class, detail, _))) => Some((class.into(), String::new(), String::new(), detail)),
+        Ok(None) => None,
+    }
+}
+
+fn run_case(case: &SeqCase, seam_ops: &mut u64) -> Option<Violation> {
+    let r = if case.sink == "u8" {
+        run_seq::<MemSink<u8>>(&case.ops, seam_ops)
+    } else {
+        run_seq::<MemSink<u64>>(&case.ops, seam_ops)
+    };
+    r.map(|(class, site, message, detail)| Violation {
+        class,
+        site,
+        message,
+        detail,
+        case: serde_json::to_value(case).unwrap(),
+    })
+}
+
+const WIDTHS: [u8; 4] = [8, 16, 32, 64];
+
+fn patterns(t: u8) -> Vec<u64> {
+    let m = mask(t);
+    vec![0, m, 0xAAAA_AAAA_AAAA_AAAA & m, 0x5555_5555_5555_5555 & m, 1, 1u64 << (t - 1), 0x8000_0000_0000_0001 & m | 1]
+}
+
+fn part_a_ops() -> Vec<Op> {
+    let mut v = vec![];
+    for t in WIDTHS {
+        for p in patterns(t) {
+            v.push(Op::Write { t, v: p });
+            for n in 0..=(t as usize) {
+                v.push(Op::Msbs { t, v: p, n });
+                v.push(Op::Lsbs { t, v: p, n });
+            }
+        }
+        for w in 1..=64usize {
+            let lo = if w >= 64 { i64::MIN } else { -(1i64 << (w - 1)) };
+            let hi = if w >= 64 { i64::MAX } else { (1i64 << (w - 1)) - 1 };
+            let tmin = -(1i128 << (t - 1));
+            let tmax = (1i128 << (t - 1)) - 1;
+            for val in [0i64, -1, 1, lo, hi, hi / 3 * 2] {
+                // the value must be representable in the operand type iT
+                if i128::from(val) >= tmin && i128::from(val) <= tmax {
+                    v.push(Op::Twoc { t, v: val, w });
+                }
+            }
+        }
+    }
+    for n in 0..=200usize {
+        v.push(Op::Zeros { n });
+    }
+    v.push(Op::Align);
+    for len in 0..=9usize {
+        v.push(Op::Bytes {
+            data: (0..len).map(|i| 0xA5u8.wrapping_add((i as u8).wrapping_mul(0x3B))).collect(),
+        });
+    }
+    v
+}
+
+fn random_op(r: &mut Rng) -> Op {
+    let t = *r.pick(&WIDTHS);
+    let val = match r.below(4) {
+        0 => 0,
+        1 => u64::MAX,
+        _ => r.next_u64(),
+    } & mask(t);
+    match r.below(16) {
+        0 | 1 => Op::Write { t, v: val },
+        2..=5 => Op::Msbs { t, v: val, n: r.below(t as usize + 1) },
+        6..=9 => Op::Lsbs { t, v: val, n: r.below(t as usize + 1) },
+        10 | 11 => {
+            let w = 1 + r.below(64);
+            let w_eff = w.min(t as usize);
+            let lo = if w_eff >= 64 { i64::MIN } else { -(1i64 << (w_eff - 1)) };
+            let hi = if w_eff >= 64 { i64::MAX } else { (1i64 << (w_eff - 1)) - 1 };
+            let v = match r.below(4) {
+                0 => lo,
+                1 => hi,
+                _ => lo.wrapping_add((r.next_u64() % ((hi as i128 - lo as i128 + 1) as u64).max(1)) as i64),
+            };
+            Op::Twoc { t, v, w }
+        }
+        12 | 13 => Op::Zeros {
+            n: if r.chance(0.2) { r.below(300) } else { r.below(20) },
+        },
+        14 => Op::Align,
+        _ => Op::Bytes {
+            data: (0..r.below(10)).map(|_| r.next_u64() as u8).collect(),
+        },
+    }
+}
+
+#[derive(Serialize, Deserialize, Clone, Debug)]
+pub struct CompCase {
+    pub part: String,
+    pub corpus_idx: usize,
+    pub spec: corpus::CorpusSpec,
+    pub component: String,
+    /// "required", "overridden" or "u64"
+    pub sink: String,
+}
+
+fn run_comp_case(comp: &Comp, case: &CompCase, seam_ops: &mut u64) -> Option<Violation> {
+    let mk = |class: &str, site: String, message: String, detail: String| {
+        Some(Violation {
+            class: class.into(),
+            site,
+            message,
+            detail,
+            case: serde_json::to_value(case).unwrap(),
+        })
+    };
+    let reference = pan::catch(|| {
+        let mut s = ByteSink::new();
+        comp.write(&mut s).map(|()| (s.len(), s.into_inner())).map_err(|e| format!("{e}"))
+    });
+    let (nbits, bytes) = match reference {
+        Ok(Ok(x)) => x,
+        Ok(Err(e)) => return mk("reference_write_failed", String::new(), e, "ByteSink write returned an error".into()),
+        Err(c) => return mk("panic", c.site, c.message, "ByteSink write panicked".into()),
+    };
+    let want = BitModel::from_bytes(&bytes, nbits);
+    let got: Result<Result<(BitModel, usize), String>, pan::Caught> = match case.sink.as_str() {
+        "required" => pan::catch(|| {
+            let mut s = ReqSink(Core::failing(None, false));
+            comp.write(&mut s).map(|()| (s.0.model.clone(), s.0.ops)).map_err(|e| format!("{e}"))
+        }),
+        "overridden" => pan::catch(|| {
+            let mut s = FullSink(Core::failing(None, false));
+            comp.write(&mut s).map(|()| (s.0.model.clone(), s.0.ops)).map_err(|e| format!("{e}"))
+        }),
+        _ => pan::catch(|| {
+            let mut s = MemSink::<u64>::new();
+            comp.write(&mut s)
+                .map(|()| {
+                    let n = s.len();
+                    let mut b = vec![0u8; (n + 7) / 8];
+                    s.write_to_byte_slice(&mut b);
+                    (BitModel::from_bytes(&b, n), 1)
+                })
+                .map_err(|e| format!("{e}"))
+        }),
+    };
+    match got {
+        Err(c) => mk("panic", c.site, c.message, format!("writing {} to the {} sink panicked", case.component, case.sink)),
+        Ok(Err(e)) => mk("user_sink_write_failed", String::new(), e, format!("writing {} to the {} sink failed", case.component, case.sink)),
+        Ok(Ok((m, ops))) => {
+            *seam_ops += ops as u64;
+            if m != want {
+                let at = m.bits.iter().zip(want.bits.iter()).position(|(a, b)| a != b);
+                mk(
+                    "user_sink_bits_differ",
+                    String::new(),
+                    String::new(),
+                    format!("{} through the {} sink: {} bits, ByteSink: {} bits, first difference at {at:?}", case.component, case.sink, m.len(), want.len()),
+                )
+            } else {
+                None
+            }
+        }
+    }
+}
+
+pub fn run(ctx: &crate::RunCtx) -> (Summary, Vec<Violation>) {
+    let mut sum = Summary::new(
+        "Part A (complete grid): sink in {MemSink<u8>, MemSink<u64>} x start offset 0..63 x one operation (write / write_msbs / write_lsbs for u8..u64 with every n in 0..=width and 7 value \
+         patterns, write_twoc for i8..i64 with every width 1..64, write_zeros 0..200, align_to_byte, write_bytes_aligned 0..9 bytes) followed by five 0-bits and five 1-bits; \
+         Part B: seeded random operation sequences of length 1..60, compared with the ideal bit string after every operation (len, bits, zero tail, storage length, write_to_byte_slice, to_bitstring); \
+         Part C: every component of the corpus written to a required-methods-only user sink, an all-methods user sink and MemSink<u64>, compared bit for bit with ByteSink. \
+         distinct = every Part A/C case is distinct by construction, Part B sequences are counted by hash; non-trivial = the sequence leaves or crosses a storage-word boundary unaligned \
+         (start offset not a multiple of 8, or any operation with a bit count that is not a multiple of 8).",
+    );
+    let mut viols = vec![];
+    let mut n_case = 0u64;
+    let mut seam_ops = 0u64;
+    // ---- Part A
+    let ops = part_a_ops();
+    for sink in ["u8", "u64"] {
+        for offset in 0..64usize {
+            for op in &ops {
+                n_case += 1;
+                if n_case % ctx.nchild != ctx.child {
+                    continue;
+                }
+                let mut seq = vec![];
+                if offset > 0 {
+                    seq.push(Op::Lsbs {
+                        t: 64,
+                        v: 0xAAAA_AAAA_AAAA_AAAA & ((1u64 << offset) - 1),
+                        n: offset,
+                    });
+                }
+                seq.push(op.clone());
+                seq.push(Op::Lsbs { t: 8, v: 0, n: 5 });
+                seq.push(Op::Lsbs { t: 8, v: 0x1F, n: 5 });
+                let case = SeqCase {
+                    part: "A".into(),
+                    sink: sink.into(),
+                    ops: seq,
+                };
+                sum.cases += 1;
+                if offset % 8 != 0 || !matches!(op, Op::Align) {
+                    sum.distinct_nontrivial += 1;
+                }
+                *sum.ops_hist.entry(format!("A_{}", op_name(op))).or_default() += 1;
+                if let Some(v) = run_case(&case, &mut seam_ops) {
+                    *sum.classes.entry(v.class.clone()).or_default() += 1;
+                    viols.push(v);
+                }
+                if sum.samples.len() < 2 && n_case % 50021 == 0 {
+                    sum.samples.push(serde_json::to_value(&case).unwrap());
+                }
+            }
+        }
+    }
+    // ---- Part B
+    let mut seen = std::collections::BTreeSet::new();
+    for j in 0..ctx.count {
+        n_case += 1;
+        if n_case % ctx.nchild != ctx.child {
+            continue;
+        }
+        let mut r = Rng::new(mix(ctx.seed, 0xC11_B000 + j));
+        let len = 1 + r.below(60);
+        let ops: Vec<Op> = (0..len).map(|_| random_op(&mut r)).collect();
+        let case = SeqCase {
+            part: "B".into(),
+            sink: if r.chance(0.5) { "u8" } else { "u64" }.into(),
+            ops,
+        };
+        sum.cases += 1;
+        let h = crate::rng::fnv(&serde_json::to_string(&case).unwrap());
+        if seen.insert(h) {
+            sum.distinct_nontrivial += 1;
+        }
+        for op in &case.ops {
+            *sum.ops_hist.entry(format!("B_{}", op_name(op))).or_default() += 1;
+        }
+        if let Some(v) = run_case(&case, &mut seam_ops) {
+            *sum.classes.entry(v.class.clone()).or_default() += 1;
+            viols.push(v);
+        }
+        if sum.samples.len() < 4 && j % 9973 == 0 {
+            sum.samples.push(serde_json::to_value(&case).unwrap());
+        }
+    }
+    // ---- Part C
+    let ncorpus = if ctx.tier == "thorough" { 300 } else { 40 };
+    for idx in 0..ncorpus {
+        let item = corpus::build(ctx.seed, idx);
+        if ctx.child == 0 {
+            corpus::kinds(&item, &mut sum.probes);
+        }
+        for (name, comp) in components(&item) {
+            for sink in ["required", "overridden", "u64"] {
+                n_case += 1;
+                if n_case % ctx.nchild != ctx.child {
+                    continue;
+                }
+                let case = CompCase {
+                    part: "C".into(),
+                    corpus_idx: idx,
+                    spec: item.spec.clone(),
+                    component: name.clone(),
+                    sink: sink.into(),
+                };
+                sum.cases += 1;
+                sum.distinct_nontrivial += 1;
+                *sum.ops_hist.entry(format!("C_{sink}")).or_default() += 1;
+                if let Some(v) = run_comp_case(&comp, &case, &mut seam_ops) {
+                    *sum.classes.entry(v.class.clone()).or_default() += 1;
+                    viols.push(v);
+                }
+            }
+        }
+    }
+    sum.seam_ops = seam_ops;
+    if sum.samples.is_empty() {
+        sum.samples.push(json!({"part": "A", "note": "see rule"}));
+    }
+    (sum, viols)
+}
+
+fn op_name(op: &Op) -> &'static str {
+    match op {
+        Op::Write { .. } => "write",
+        Op::Msbs { .. } => "write_msbs",
+        Op::Lsbs { .. } => "write_lsbs",
+        Op::Twoc { .. } => "write_twoc",
+        Op::Zeros { .. } => "write_zeros",
+        Op::Align => "align_to_byte",
+        Op::Bytes { .. } => "write_bytes_aligned",
+    }
+}
+
+pub fn exec(case: &serde_json::Value) -> Result<Option<Violation>, String> {
+    let part = case.get("part").and_then(|p| p.as_str()).unwrap_or("");
+    let mut ops = 0;
+    if part == "C" {
+        let c: CompCase = serde_json::from_value(case.clone()).map_err(|e| format!("bad C11 case: {e}"))?;
+        let item = corpus::build_spec(c.corpus_idx, c.spec.clone());
+        let comp = components(&item)
+            .into_iter()
+            .find(|(n, _)| *n == c.component)
+            .ok_or_else(|| format!("component {} not found", c.component))?
+            .1;
+        Ok(run_comp_case(&comp, &c, &mut ops))
+    } else {
+        let c: SeqCase = serde_json::from_value(case.clone()).map_err(|e| format!("bad C11 case: {e}"))?;
+        Ok(run_case(&c, &mut ops))
+    }
+}
+
+/// Shrinks an operation sequence: drop operations one at a time, then shrink operands, while the
+/// same class (and panic site) persists.
+pub fn minimise(case: &serde_json::Value, class: &str, site: &str) -> serde_json::Value {
+    let Ok(mut c) = serde_json::from_value::<SeqCase>(case.clone()) else {
+        return case.clone();
+    };
+    let same = |c: &SeqCase| {
+        let mut o = 0;
+        run_case(c, &mut o).map_or(false, |v| v.class == class && v.site == site)
+    };
+    if !same(&c) {
+        return case.clone();
+    }
+    let mut progress = true;
+    while progress {
+        progress = false;
+        let mut i = 0;
+        while i < c.ops.len() {
+            let mut t = c.clone();
+            t.ops.remove(i);
+            if !t.ops.is_empty() && same(&t) {
+                c = t;
+                progress = true;
+            } else {
+                i += 1;
+            }
+        }
+        for i in 0..c.ops.len() {
+            let cands: Vec<Op> = match &c.ops[i] {
+                Op::Msbs { t, v, n } => vec![Op::Msbs { t: 8, v: *v & 0xFF, n: (*n).min(8) }, Op::Msbs { t: *t, v: 0, n: *n }, Op::Msbs { t: *t, v: *v, n: n / 2 }],
+                Op::Lsbs { t, v, n } => vec![Op::Lsbs { t: 8, v: *v & 0xFF, n: (*n).min(8) }, Op::Lsbs { t: *t, v: 0, n: *n }, Op::Lsbs { t: *t, v: *v, n: n / 2 }],
+                Op::Zeros { n } if *n > 0 => vec![Op::Zeros { n: n / 2 }, Op::Zeros { n: n - 1 }],
+                Op::Bytes { data } if !data.is_empty() => vec![Op::Bytes { data: data[..data.len() - 1].to_vec() }],
+                Op::Write { t, v } if *v != 0 => vec![Op::Write { t: *t, v: 0 }],
+                _ => vec![],
+            };
+            for cand in cands {
+                if cand == c.ops[i] {
+                    continue;
+                }
+                let mut t = c.clone();
+                t.ops[i] = cand;
+                if same(&t) {
+                    c = t;
+                    progress = true;
+                    break;
+                }
+            }
+        }
+    }
+    serde_json::to_value(c).unwrap()
 }
